@@ -1112,18 +1112,43 @@ class Unit:
                 continue
             occ = [mm.start() for mm in re.finditer(re.escape(h['anchor']), body) if sn.mask[mm.start()] == CODE]
             if not occ and not h['nth']:
-                # the anchored statement was edited slightly: take the one line that is still nearly the same text
+                # the anchored statement was edited slightly: take the one line that is still nearly the same text -- by overall
+                # similarity, or because (nearly) all of the anchor's text still occurs in it in order -- among the lines that lie
+                # between the neighbouring hints' anchors (hints are written in code order)
                 import difflib
-                cands = []
-                pos_ = 0
-                for ln_ in body.split('\n'):
-                    st_ = ln_.strip()
-                    if st_ and sn.mask[pos_ + (len(ln_) - len(ln_.lstrip()))] == CODE:
-                        a_ = h['anchor']
-                        r_ = max(difflib.SequenceMatcher(None, a_, st_).ratio(), difflib.SequenceMatcher(None, a_, st_[:len(a_) + 4]).ratio())
-                        cands.append((r_, pos_ + (len(ln_) - len(ln_.lstrip()))))
-                    pos_ += len(ln_) + 1
-                cands.sort(reverse=True)
+                lo_, hi_ = 0, len(body)
+                k_h = spec['hints'].index(h)
+                for h2 in spec['hints'][:k_h]:
+                    if h2.get('anchor') and not h2.get('nth'):
+                        o2 = [mm.start() for mm in re.finditer(re.escape(h2['anchor']), body) if sn.mask[mm.start()] == CODE]
+                        if len(o2) == 1:
+                            lo_ = max(lo_, o2[0])
+                for h2 in spec['hints'][k_h + 1:]:
+                    if h2.get('anchor') and not h2.get('nth'):
+                        o2 = [mm.start() for mm in re.finditer(re.escape(h2['anchor']), body) if sn.mask[mm.start()] == CODE]
+                        if len(o2) == 1:
+                            hi_ = min(hi_, o2[0])
+                            break
+                if lo_ >= hi_:
+                    lo_, hi_ = 0, len(body)
+                a_ = h['anchor']
+
+                def _cands(lo2, hi2):
+                    out_, pos_ = [], 0
+                    for ln_ in body.split('\n'):
+                        st_ = ln_.strip()
+                        p0_ = pos_ + (len(ln_) - len(ln_.lstrip()))
+                        if st_ and lo2 <= p0_ < hi2 and sn.mask[p0_] == CODE:
+                            smm = difflib.SequenceMatcher(None, a_, st_, autojunk=False)
+                            cover = sum(bl.size for bl in smm.get_matching_blocks() if bl.size >= 3) / max(1, len(a_))
+                            r_ = max(smm.ratio(), difflib.SequenceMatcher(None, a_, st_[:len(a_) + 4], autojunk=False).ratio(), cover if len(a_) >= 12 else 0)
+                            out_.append((r_, p0_))
+                        pos_ += len(ln_) + 1
+                    out_.sort(reverse=True)
+                    return out_
+                cands = _cands(lo_, hi_)
+                if not (cands and cands[0][0] >= 0.8):
+                    cands = _cands(0, len(body))      # the hints of this function are not in code order
                 if cands and cands[0][0] >= 0.8 and (len(cands) == 1 or cands[1][0] <= cands[0][0] - 0.08):
                     occ = [cands[0][1]]
                     log.append(dict(rule='fuzzy-anchor', before=h['anchor'], after=norm_ws(body[occ[0]:body.find('\n', occ[0])])[:160],
